@@ -340,7 +340,9 @@ pub fn execute(case: &Case, record_seed: Option<u64>) -> Outcome {
         _ => with_parser(case.input, &prep, Drive { case, max_events: event_budget(n) }),
     };
     let ticks = clock::ticks();
+    let work = clock::work();
     let mut out = Outcome {
+        work,
         n_chars: n as u64,
         events: res.events,
         ticks,
@@ -364,7 +366,7 @@ pub fn execute(case: &Case, record_seed: Option<u64>) -> Outcome {
         out.violation = Some((
             res.end.class(),
             format!(
-                "{}{loc} [input={} client={} after {} events, {} ticks, {} chars]",
+                "{}{loc} [input={} client={} after {} events, {} seam ticks, {work} work ticks, {} chars]",
                 res.end.describe(),
                 case.input.describe(),
                 case.client.describe(),
